@@ -30,9 +30,12 @@ CONSTANTS MustExpandTotal,  \* TRUE: MustExpand returns a never-matching regexp 
 (* and which rule fields it substitutes.                                   *)
 Fields == {"alert", "record", "for", "labels.foo", "labels.summary", "annotations.summary"}
 \* ok: accepted as written; okA: accepted between ^ and $ (what "fully anchored" patterns are compiled as)
-V(cls, text, ok) == [cls |-> cls, text |-> text, ok |-> ok, okA |-> ok, tmpl |-> "none", refs |-> {}]
-VA(cls, text, ok, okA) == [cls |-> cls, text |-> text, ok |-> ok, okA |-> okA, tmpl |-> "none", refs |-> {}]
-T(cls, text, ok, tmpl, refs) == [cls |-> cls, text |-> text, ok |-> ok, okA |-> ok, tmpl |-> tmpl, refs |-> refs]
+\* pos: where a template puts the substituted text - "start" (followed by .*), "afterStar" (.* in front, end of
+\* pattern behind), "inGroup" (between parentheses)
+V(cls, text, ok) == [cls |-> cls, text |-> text, ok |-> ok, okA |-> ok, tmpl |-> "none", refs |-> {}, pos |-> "start"]
+VA(cls, text, ok, okA) == [cls |-> cls, text |-> text, ok |-> ok, okA |-> okA, tmpl |-> "none", refs |-> {}, pos |-> "start"]
+T(cls, text, ok, tmpl, refs) == [cls |-> cls, text |-> text, ok |-> ok, okA |-> ok, tmpl |-> tmpl, refs |-> refs, pos |-> "start"]
+TP(cls, text, refs, pos) == [cls |-> cls, text |-> text, ok |-> TRUE, okA |-> TRUE, tmpl |-> "ok", refs |-> refs, pos |-> pos]
 
 \* Go regexp syntax (regexp.Compile)
 RegexpValues == {
@@ -52,6 +55,10 @@ TemplatedValues == RegexpValues \cup {
   T("refAnn",     "{{ $annotations.summary }}.*", TRUE,  "ok", {"annotations.summary"}),
   T("refMissing", "{{ $labels.nope }}.*",         TRUE,  "ok", {}),
   T("refTwo",     "{{ $alert }}{{ $labels.foo }}.*", TRUE, "ok", {"alert", "labels.foo"}),
+  TP("refLabelEnd",   ".*{{ $labels.foo }}",   {"labels.foo"}, "afterStar"),
+  TP("refAlertEnd",   ".*{{ $alert }}",        {"alert"},      "afterStar"),
+  TP("refLabelGroup", "({{ $labels.foo }})?",  {"labels.foo"}, "inGroup"),
+  TP("refRecordGroup", "({{ $record }})?",     {"record"},     "inGroup"),
   T("refInvalid", "({{ $alert }}",                FALSE, "ok", {"alert"}),
   T("undefVar",   "{{ $nope }}.*",                FALSE, "parseErr", {}),
   T("undefExpr",  "{{ $expr }}.*",                FALSE, "parseErr", {}),
@@ -223,19 +230,30 @@ OptionById(id) == CHOOSE o \in Options : o.id = id
 (*  kind   alerting | recording                                             *)
 (*  shape  full (labels foo,  annotations summary + link, for) | bare       *)
 (*  where  which field carries the metacharacter text                       *)
-Metas == { [m |-> "paren",   text |-> "(",   breaks |-> TRUE],
-           [m |-> "bracket", text |-> "[a",  breaks |-> TRUE],
-           [m |-> "close",   text |-> "a)b", breaks |-> TRUE],
-           [m |-> "star",    text |-> "*",   breaks |-> FALSE],
-           [m |-> "escape",  text |-> "\\",  breaks |-> FALSE],
-           [m |-> "tmpl",    text |-> "{{",  breaks |-> FALSE] }
-NoMeta == [m |-> "none", text |-> "", breaks |-> FALSE]
+Metas == { [m |-> "paren",   text |-> "("],
+           [m |-> "bracket", text |-> "[a"],
+           [m |-> "close",   text |-> "a)b"],
+           [m |-> "star",    text |-> "*"],
+           [m |-> "escape",  text |-> "\\"],
+           [m |-> "tmpl",    text |-> "{{"] }
+NoMeta == [m |-> "none", text |-> ""]
+
+\* Go regexp syntax: does substituting the text (after the literal "a" when `prefixed`: rule names are "a" + text)
+\* at the given position leave an invalid pattern?
+\* `raw`: the pattern is compiled as written (token options), otherwise between ^ and $.
+MetaBreaks(m, pos, prefixed, raw) ==
+  CASE m \in {"paren", "bracket", "close"} -> TRUE
+    \* "^*" is accepted, "*" alone, ".**" and "(*)" are not, "a*" always is
+    [] m = "star"   -> ~prefixed /\ (pos # "start" \/ raw)
+    \* "\." and "\$" are escapes, "(\)" loses its closing parenthesis, a trailing backslash is an error
+    [] m = "escape" -> pos = "inGroup" \/ (raw /\ pos = "afterStar")
+    [] OTHER        -> FALSE                           \* "{{" is literal text for the regexp
 
 MetaByName(m) == IF m = "none" THEN NoMeta ELSE CHOOSE x \in Metas : x.m = m
 ValueOf(type, cls) == CHOOSE v \in ValuesOf(type) : v.cls = cls
 
 R(kind, shape, where, meta) ==
-  [kind |-> kind, shape |-> shape, where |-> where, meta |-> meta.m, breaks |-> meta.breaks,
+  [kind |-> kind, shape |-> shape, where |-> where, meta |-> meta.m,
    name    |-> IF where = "name"    THEN "a" \o meta.text ELSE "a1",
    foo     |-> IF where = "foo"     THEN meta.text ELSE "bar",
    summary |-> IF where = "summary" THEN meta.text ELSE "text"]
@@ -259,19 +277,21 @@ Validates(o, v) ==
          [] o.vb = "positive" -> v.ok /\ v.cls # "zero"          \* ci maxCommits cannot be <= 0
 
 (* Impl: checks/template.go newTemplateContext - which text a reference substitutes *)
-FieldBreaks(r, f) ==
-  CASE f = "alert"      -> r.kind = "alerting"  /\ r.where = "name" /\ r.breaks
-    [] f = "record"     -> r.kind = "recording" /\ r.where = "name" /\ r.breaks
+\* `led`: the template writes other text (a non-empty $alert) directly in front of the label value
+FieldBreaks(r, f, pos, led, raw) ==
+  CASE f = "alert"      -> r.kind = "alerting"  /\ r.where = "name" /\ MetaBreaks(r.meta, pos, TRUE, raw)
+    [] f = "record"     -> r.kind = "recording" /\ r.where = "name" /\ MetaBreaks(r.meta, pos, TRUE, raw)
     [] f = "for"        -> FALSE
-    [] f = "labels.foo" -> r.shape = "full" /\ r.where = "foo" /\ r.breaks
+    [] f = "labels.foo" -> r.shape = "full" /\ r.where = "foo" /\ MetaBreaks(r.meta, pos, led, raw)
     \* alerting rules: annotations are copied into the Labels map, $annotations stays empty
-    [] f = "labels.summary"      -> r.kind = "alerting" /\ r.shape = "full" /\ r.where = "summary" /\ r.breaks
+    [] f = "labels.summary"      -> r.kind = "alerting" /\ r.shape = "full" /\ r.where = "summary"
+                                    /\ MetaBreaks(r.meta, pos, FALSE, raw)
     [] f = "annotations.summary" -> FALSE
 
 \* TemplatedRegexp.Expand(rule) returns an error
-ExpandErr(v, r) ==
+ExpandErr(o, v, r) ==
   \/ v.tmpl = "execErrIfAlert" /\ r.kind = "alerting"
-  \/ \E f \in v.refs : FieldBreaks(r, f)
+  \/ \E f \in v.refs : FieldBreaks(r, f, v.pos, v.cls = "refTwo" /\ r.kind = "alerting", o.type = "rawtregexp")
 
 (* Impl: does a check evaluate the option's value for this rule              *)
 Reaches(o, v, r) ==
@@ -282,7 +302,7 @@ Reaches(o, v, r) ==
 
 \* the use site panics
 UseFails(o, v, r) ==
-  CASE o.ub = "MustExpand"  -> Reaches(o, v, r) /\ ExpandErr(v, r) /\ ~MustExpandTotal
+  CASE o.ub = "MustExpand"  -> Reaches(o, v, r) /\ ExpandErr(o, v, r) /\ ~MustExpandTotal
     [] o.ub = "strictRegex" -> Reaches(o, v, r) /\ ~v.okA      \* MustCompile("^v$"); unreachable after Compile(v):
                                                                \* anchoring a valid regexp keeps it valid (AnchorProbe)
     [] OTHER                -> FALSE
